@@ -24,9 +24,13 @@ def legal_history(r, maxentries=9, extract_fail=0.2):
     return toks
 
 
-def small_archives(limit=60000):
+def small_archives(limit=60000, max_member=100000):
+    """corpus archives that are small on disk AND whose members decode to at most `max_member` bytes"""
+    from vlib import core
+    big = {m["archive"] for m in corpus.members(core.lhv_path()) if m["length"] > max_member}
     return [(os.path.relpath(f, corpus.ARCH_DIR), open(f, "rb").read())
-            for f in corpus.archive_files() if os.path.getsize(f) < limit]
+            for f in corpus.archive_files()
+            if os.path.getsize(f) < limit and os.path.relpath(f, corpus.ARCH_DIR) not in big]
 
 
 def mutate_archive(r, d):
@@ -78,6 +82,37 @@ def structured_archive(r, nmembers=None, consistent=0.5):
     if r.random() < 0.5:
         out += b"\0"
     return out
+
+
+def hostile_member_archive(r):
+    """one or two members whose compressed data is a table-hostile / random stream for its method"""
+    out = b""
+    for _ in range(r.choice([1, 1, 2])):
+        meth = r.choice(S.METHODS)
+        if meth in S.LHNEW:
+            data = S.hostile_lhnew(r, meth)
+        elif meth == "pm2":
+            data = S.hostile_pm2(r)
+        elif meth == "pm1":
+            data = S.hostile_pm1(r)
+        else:
+            data = S.rand_bytes(r, S.geometric_len(r, 30, 300))
+        lvl = r.choice([0, 1, 2])
+        name = b"f%d" % r.randrange(100)
+        f = E.Fields(level=lvl, method=("-%s-" % meth).encode(), clen=len(data), length=(r.choice([10, 1000, 3000]) if meth in ("lh6", "lh7", "lhx", "lk7") else r.choice([10, 1000, 20000, 70000])),
+                     crc=r.randrange(65536), os_type=r.choice([0x4d, 0x55, 0x6d, 0x20]),
+                     name=name if lvl < 2 else b"", exts=[] if lvl < 2 else [(E.EXT_FILENAME, name)])
+        out += E.encode(f) + data
+    return out
+
+
+def decode_history(r, n=3):
+    """history that decodes every member (read / check / extract)"""
+    toks = []
+    for _ in range(n):
+        toks.append("n")
+        toks.append(r.choice(["c", "x1", "r100000", "r7;r100000"]))
+    return ";".join(toks).split(";")
 
 
 def rdr_op(kind, policy, toks, data, fail_at=-1):
